@@ -64,7 +64,7 @@ func plainUplink(r *rand.Rand) ([]byte, string) {
 	case 3:
 		return nasTestpacket.GetAuthenticationResponse(rbytes(r, 16), ""), "AuthenticationResponse"
 	case 4:
-		sn := models.Snssai{Sst: int32(r.Intn(256)), Sd: hexs(rbytes(r, 3))}
+		sn := models.Snssai{Sst: int32(r.Intn(256)), Sd: sdString(r)}
 		dnn := "internet"
 		if r.Intn(2) == 0 {
 			dnn = string(bytes.Repeat([]byte{'a' + byte(r.Intn(26))}, 1+r.Intn(40)))
